@@ -64,6 +64,10 @@ class SingleFilterSet(FilterSetInterface[FilterValueT], metaclass=ABCMeta):
     async def put(self, name: str, value: FilterValueT) -> None:
         if name == self.name:
             await self.replace_active(value)
+        else:
+            # only the one name can be stored: refuse, rather than
+            # acknowledge a script that is then not kept
+            raise NotImplementedError()
 
     async def delete(self, name: str) -> None:
         if name == self.name:
